@@ -117,6 +117,20 @@ Theorem C07_inverse_stays_inverse_link_and_callable :
 Proof. exact (fun P G C p0 fillP callP => inverse_stays_inverse_general p0 fillP callP gen_cfg gen_cfg_all). Qed.
 Print Assumptions C07_inverse_stays_inverse_link_and_callable.
 
+(* 8d. inverse(update_buffers=True) of a velocity-field model whose velocity field is buffered: the
+       inverse's buffered displacement is the exponential of that velocity field with the NEGATED sign, on
+       the same grid -- the inverse is usable through forward()/tensor()/disp() without update().  (Rests
+       on the statement order read from the source: the negated ExpFlow is assigned before the
+       update_buffers block uses it.) *)
+Theorem C07_inverse_update_buffers_gives_inverse_field :
+  forall (P G C : Type) (p0 : P) (s : state P G C) o n s1 ob vb,
+  get_obj P G C s o = Some ob -> has_exp (o_kind P G C ob) = true -> o_v P G C ob = Some vb ->
+  inverse1 P G C p0 gen_cfg s o false true = Ok n s1 ->
+  exists obn, get_obj P G C s1 n = Some obn /\
+    o_u P G C obn = Some (mkU P G (Snap P (u_content P G C p0 s vb)) (u_grid P G vb) (negb (o_inv P G C ob))).
+Proof. exact (fun P G C p0 => inverse_update_buffers_field p0 gen_cfg gen_cfg_all). Qed.
+Print Assumptions C07_inverse_update_buffers_gives_inverse_field.
+
 (* 8c. Velocity-field models on an affine invariant generator v(x) = h x (each axis of a diagonal
        generator): for EVERY number k of scaling-and-squaring steps the inverse composed with the forward
        map is x -> (1 - h^2/4^k)^(2^k) x exactly -- the identity up to a term of second order in h.
